@@ -334,13 +334,11 @@ def run(ck: Check) -> None:
             uidx.append(("merge", i))
             uitems.append("false" if "exc" in r else
                           f"andb (prodl {zs(r['out'])} =? prodl {zs(sh)}) (is_merge_ofb {thr} (squeezed_or_one {zs(sh)}) {zs(r['out'])} (regroup (squeezed_or_one {zs(sh)}) {zs(r['out'])} 1 []))")
-        for i in bad_s:
+        for i in [i for i in bad_s if math.prod(swork[i][0]) <= 4000][:32]:
             (sh, b), r = swork[i], sres[i]
-            if math.prod(sh) > 50000:
-                continue
             uidx.append(("split", i))
             uitems.append("false" if "exc" in r else f"andb {coq_bool(r['ok'])} (C05_checkb {zs(sh)} {b} false {views(r['views'])})")
-        uflat = eval_items(ck, "c05_uchk", uitems, 100)
+        uflat = eval_items(ck, "c05_uchk", uitems, 8)
         ufail = [ix for ix, bch in zip(uidx, uflat) if bch != "T"]
 
         if failing:
